@@ -102,6 +102,7 @@ AR = ["writer::Writer::write_array", "writer::Writer::need_separator", "writer::
 H("c01_array_int_int", "writer.rs", SEPP, AR, "array of two integers, all i8 x i8: two separated tokens that read back", timeout=900, mem_gb=8)
 for v in ("null", "true", "int"):
     H(f"c01_array_name_then_{v}", "writer.rs", SEPP, AR, f"array [/n {v}] for every regular 1-byte name n: name and following token separated, second token spelled correctly", timeout=900, mem_gb=10)
+H("c01_array_string_pairs", "writer.rs", SEPP, AR, "[(c) 5] and [<hh> /N] for every byte c that needs no escape: exact framing", timeout=900, mem_gb=10, stubs=CONTAINS)
 H("c01_array_scalar_pairs", "writer.rs", SEPP, AR, "[true N], [null null], [3 0 R N] for N in 0..=9: exact bytes", timeout=900, mem_gb=8)
 H("c01_keywords_and_reference", "writer.rs", SEPP, ["writer::Writer::write_object"], "null / true / false spellings; references for all u16 ids x u8 generations read back as 'id gen R'", timeout=900, mem_gb=8)
 H("c01_hexstr_2", "writer.rs", WK, ["writer::Writer::write_string"], "all hex strings of 2 bytes", timeout=400, mem_gb=6)
@@ -173,8 +174,8 @@ H("c05_pkcs5_roundtrip", "pkcs5.rs", {"C05": Q, "C06": Q}, ["encryption::pkcs5::
   "all 16-byte blocks x all pad positions 0..=15", timeout=400, mem_gb=4)
 H("c05_pkcs5_unpad_spec", "pkcs5.rs", {"C05": Q, "C06": Q}, ["encryption::pkcs5::Pkcs5::raw_unpad"], "all 16-byte blocks: accepted iff PKCS#5-well-formed", timeout=400, mem_gb=4)
 H("c06_rc4_key_vector", "rc4.rs", {"C05": Q, "C06": Q}, ["encryption::rc4::Rc4::new", "encryption::rc4::Rc4::encrypt", "encryption::rc4::Rc4::decrypt", "encryption::rc4::Rc4::apply_keystream"],
-  "key 'Key' (published test vector), all 8-byte plaintexts: ciphertext = plaintext XOR published keystream; decrypt inverts encrypt", timeout=1200, mem_gb=12, fs_size=300)
-H("c06_rc4_long_stream", "rc4.rs", {"C06": Q, "C05": T}, ["encryption::rc4::Rc4::new", "encryption::rc4::Rc4::apply_keystream"], "key 'Key', 262-byte stream (last 6 bytes symbolic): ciphertext bytes 250..262 equal the reference RC4 (index wrap-around after 255 bytes)", timeout=1500, mem_gb=12, fs_size=300, witness_from="c06_rc4_long_witness")
+  "key 'Key' (published test vector), all 8-byte plaintexts: ciphertext = plaintext XOR published keystream; decrypt inverts encrypt", timeout=1200, mem_gb=10, fs_size=300)
+H("c06_rc4_long_stream", "rc4.rs", {"C06": Q, "C05": T}, ["encryption::rc4::Rc4::new", "encryption::rc4::Rc4::apply_keystream"], "key 'Key', 262-byte stream (last 6 bytes symbolic): ciphertext bytes 250..262 equal the reference RC4 (index wrap-around after 255 bytes)", timeout=1500, mem_gb=10, fs_size=300, witness_from="c06_rc4_long_witness")
 H("c06_rc4_long_witness", "rc4.rs", {"C06": X}, [], "witness helper for c06_rc4_long_stream", timeout=300, mem_gb=4)
 H("c06_rc4_ref_key40", "rc4.rs", {"C06": T, "C05": T}, ["encryption::rc4::Rc4::new", "encryption::rc4::Rc4::apply_keystream"], "one concrete 40-bit key, all 6-byte plaintexts vs an independent reference RC4", timeout=1200, mem_gb=10, fs_size=300)
 H("c06_rc4_ref_key128", "rc4.rs", {"C06": T, "C05": T}, ["encryption::rc4::Rc4::new", "encryption::rc4::Rc4::apply_keystream"], "one concrete 128-bit key, all 6-byte plaintexts vs an independent reference RC4", timeout=1200, mem_gb=10, fs_size=300)
@@ -184,10 +185,10 @@ for v, d in (("rc4_key40", "RC4, 40-bit file key"), ("rc4_key128", "RC4, 128-bit
     H(f"c06_alg1_{v}", "crypt_filters.rs", {"C06": Q}, ["encryption::crypt_filters::Rc4CryptFilter::compute_key", "encryption::crypt_filters::Aes128CryptFilter::compute_key"],
       f"Algorithm 1, {d}: all file keys x all object numbers (u32) x all generations (u16): the MD5 input is key || id[0..3] LE || gen[0..2] LE (|| 'sAlT'), one digest, truncated to min(n+5,16); MD5 replaced by the recording model", timeout=600, mem_gb=6, models=MD5M, stubs=["md-5 -> transparent recording hash model"])
 A2 = ["encryption::algorithms::PasswordAlgorithm::compute_file_encryption_key_r4", "encryption::Permissions::p_value"]
-for v, d in (("r2_pw5", "revision 2, 5-byte password"), ("r3_key40_pw0", "revision 3, 40-bit key, empty password"), ("r3_key128_pw33", "revision 3, 128-bit key, 33-byte password (truncated to 32)"), ("r4_key128_pw5", "revision 4, 128-bit key, 5-byte password, EncryptMetadata symbolic")):
-    H(f"c06_alg2_{v}", "algorithms.rs", {"C06": Q if v == "r2_pw5" else X}, A2,
+for v, d in (("r2_pw5", "revision 2, 5-byte password"), ("r2_pw0", "revision 2, empty password (full padding string)"), ("r2_pw33", "revision 2, 33-byte password (truncated to 32, no padding)"), ("r3_key40_pw0", "revision 3, 40-bit key, empty password"), ("r3_key128_pw33", "revision 3, 128-bit key, 33-byte password (truncated to 32)"), ("r4_key128_pw5", "revision 4, 128-bit key, 5-byte password, EncryptMetadata symbolic")):
+    H(f"c06_alg2_{v}", "algorithms.rs", {"C06": Q if v.startswith("r2_") else X}, A2,
       f"Algorithm 2, {d}: all passwords x all 32-byte O x all P x all 8-byte file ids: MD5 input, number of MD5 rounds (1+50) and truncations as the standard prescribes; MD5 replaced by the recording model",
-      timeout=2400, mem_gb=12 if v == "r2_pw5" else 26, models=MD5M, stubs=["md-5 -> transparent recording hash model", "std::hash::RandomState::new -> fixed keys"] + LS)
+      timeout=2400, mem_gb=6 if v.startswith("r2_") else 26, models=MD5M, stubs=["md-5 -> transparent recording hash model", "std::hash::RandomState::new -> fixed keys"] + LS)
 H("c06_alg1a_aes256_key", "crypt_filters.rs", {"C06": Q}, ["encryption::crypt_filters::Aes256CryptFilter::compute_key"], "Algorithm 1.A: all 32-byte keys, object numbers and generations: key used as is, no MD5", timeout=600, mem_gb=6, models=MD5M)
 H("c05_identity_filter", "crypt_filters.rs", {"C05": Q}, ["encryption::crypt_filters::IdentityCryptFilter"], "all 4-byte data, all 5-byte keys: encrypt and decrypt are the identity", timeout=300, mem_gb=4, models=MD5M)
 H("c05_rc4_filter_roundtrip", "crypt_filters.rs", {"C05": T}, ["encryption::crypt_filters::Rc4CryptFilter::encrypt", "encryption::crypt_filters::Rc4CryptFilter::decrypt"], "concrete 10-byte object key, all 6-byte data: decrypt(encrypt(x)) == x", timeout=1500, mem_gb=12, models=MD5M, fs_size=300)
